@@ -1,6 +1,7 @@
 import PvModel.Props.C07
 #print axioms Pv.C07_fair
 #print axioms Pv.C07_branch
+#print axioms Pv.C07_program
 #print axioms Pv.C07_never
 #print axioms Pv.C07_always
 #print axioms Pv.C07_run_split
